@@ -180,6 +180,15 @@ def gen(rng, tier, index):
         # stop a background script and start it again at once, while the
         # stopped run is still winding down; then stop again
         p = '/' + rng.choice(bg_paths)
+        # make that script slow to wind down: most of the time it is inside
+        # a read that takes 80 ms to be answered
+        pop[0]['latency'] = 0.08
+        for e in manifest:
+            if derive_path(e) == p[1:] and e['file_name']:
+                scripts[e['file_name']] = (
+                    'time 0.05 repeat begin get "{}" hue 5 saturation 5 '
+                    'brightness 5 kelvin 2999 set all end'.format(
+                        pop[0]['label']))
         burst = [{'path': p, 'pause': 0},
                  {'path': '/stop' + p, 'pause': rng.choice([0.05, 0.3, 1.1])},
                  {'path': p, 'pause': 0},
@@ -270,10 +279,12 @@ def execute(scenario, chooser):
             return out
 
         def running_instances():
-            cur = jobs.get_current()
-            lst = ([cur] if cur else []) + list(jobs.get_background())
-            agents_alive.extend(lst)
-            return [inst.get(id(a)) for a in lst]
+            """Ground truth from the simulator, not from the controller's own
+            tables: hand-overs whose script body is executing right now
+            (ScriptJob.execute entered and not yet left)."""
+            busy = st.get('executing', set())
+            return [k for k, j in enumerate(jlog)
+                    if j.get('job_id') in busy]
 
         class RecJobControl(JobControl):
             def _rec(self, op, name=None, job=None):
@@ -321,6 +332,7 @@ def execute(scenario, chooser):
                 self._rec('clear_queue')
                 return super().clear_queue()
 
+
         real_jc = web_app.JobControl
         web_app.JobControl = RecJobControl      # WebApp() builds its own
         try:
@@ -345,10 +357,7 @@ def execute(scenario, chooser):
             o = {'path': r['path'], 'j0': len(jlog), 'f0': len(fs.opened),
                  'r0': len(flask_stub.rendered), 'ev0': sim.next_event(),
                  'queued_before': [a.name for a in jobs.get_queued()],
-                 'running_before': [a.name for a in
-                                    ([jobs.get_current()]
-                                     if jobs.get_current() else []) +
-                                    list(jobs.get_background())],
+                 'running_before': _names(jobs),
                  'inst_before': running_instances(),
                  'unfinished_before': unfinished_instances(),
                  'exc': None, 'status': 200}
@@ -368,10 +377,7 @@ def execute(scenario, chooser):
             o['queued_after'] = [a.name for a in jobs.get_queued()]
             o['ev1'] = sim.next_event()
             o['inst_after'] = running_instances()
-            o['running_after'] = [a.name for a in
-                                  ([jobs.get_current()]
-                                   if jobs.get_current() else []) +
-                                  list(jobs.get_background())]
+            o['running_after'] = _names(jobs)
             obs.append(o)
         # let everything finish: stop what is endless
         sim.set_budget(60000, 'final-drain')
@@ -391,8 +397,18 @@ def execute(scenario, chooser):
             orig(self)
         return request_stop
 
+    def w_execute(orig):
+        def execute(self):
+            busy = st.setdefault('executing', set())
+            busy.add(id(self))
+            try:
+                orig(self)
+            finally:
+                busy.discard(id(self))
+        return execute
+
     with world.StdoutCapture(), world.Instrument(
-            _SJ, {'request_stop': w_request_stop}):
+            _SJ, {'request_stop': w_request_stop, 'execute': w_execute}):
         sim, out = world.run_sim(main, chooser, gran=sc['policy']['gran'],
                                  step_cap=250000, fairness=60)
     res = {'violations': viol, 'digest': sim.digest(),
@@ -426,6 +442,12 @@ def execute(scenario, chooser):
         return res
     judge(sc, obs, st, violation, probes, res)
     return res
+
+
+def _names(jobs):
+    cur = jobs.get_current()
+    return [a.name for a in ([cur] if cur is not None else []) +
+            list(jobs.get_background())]
 
 
 def _route_of(path):
